@@ -119,7 +119,7 @@ static void icosa_points(int quick) {
     H3Index p[12]; LatLng g[12]; getPentagons(0, p); L3 v[12];
     for (int i = 0; i < 12; i++) { cellToLatLng(p[i], &g[i]); v[i] = l3_of(&g[i]); }
     static const long double OFF[] = {0, 1e-16L, 1e-15L, 1e-13L, 1e-11L, 1e-9L, 1e-6L, 1e-3L};
-    int nper = quick ? 12 : 150;
+    int nper = quick ? 12 : 60;
     for (int i = 0; i < 12; i++) for (int j = i + 1; j < 12; j++) {
         if (l3_angle(v[i], v[j]) > 1.2L) continue;                                /* icosahedron edge = 1.107 rad */
         L3 nrm = l3_unit(l3_cross(v[i], v[j]));
@@ -129,7 +129,7 @@ static void icosa_points(int quick) {
             for (int o = 0; o < 8; o++) for (int sg = -1; sg <= 1; sg += 2) {
                 if (o == 0 && sg == 1) continue;
                 L3 q = l3_unit(l3_add(m, l3_scale(nrm, sg * OFF[o]))); LatLng ll = l3_ll(q);
-                int nres = quick ? 2 : 6; for (int k = 0; k < nres; k++) ev_ll("icosa-edge", ll.lat, ll.lng, (int)vt_randn(16), 0, 0);
+                int nres = quick ? 2 : 3; for (int k = 0; k < nres; k++) ev_ll("icosa-edge", ll.lat, ll.lng, (int)vt_randn(16), 0, 0);
             }
         }
     }
@@ -222,14 +222,14 @@ int main(int argc, char **argv) {
     for (int res = 0; res <= 15; res++) {
         CellVec cv = {0};
         if (res <= 1 || (!quick && res == 2)) cv_all_cells(&cv, res);
-        else { cv_pentagon_strata(&cv, res, quick ? 1 : 2); cv_seam_cells(&cv, res, quick ? 2 : 25); cv_random_cells(&cv, res, quick ? 12 : 250); }
+        else { cv_pentagon_strata(&cv, res, quick ? 1 : 2); cv_seam_cells(&cv, res, quick ? 2 : 8); cv_random_cells(&cv, res, quick ? 12 : 60); }
         /* cells containing the poles and cells on the antimeridian */
         for (int s = -1; s <= 1; s += 2) { LatLng pl = {s * M_PI_2, 0}; H3Index h; if (!latLngToCell(&pl, res, &h)) { cv_push(&cv, h); if (!quick || res % 3 == 0) { H3Index d[7] = {0}; gridDisk(h, 1, d); for (int i = 0; i < 7; i++) if (d[i]) cv_push(&cv, d[i]); } } }
         for (int k = 0; k < (quick ? 3 : 20); k++) { LatLng am = {(vt_rand01() - 0.5) * 3, M_PI}; H3Index h; if (!latLngToCell(&am, res, &h)) cv_push(&cv, h); }
-        for (int64_t i = 0; i < cv.n; i++) { if (res <= 1 && quick && i % (res ? 3 : 1) && !isPentagon(cv.v[i])) continue; cell_points(cv.v[i], quick); }
+        for (int64_t i = 0; i < cv.n; i++) { if (res <= 1 && quick && i % (res ? 3 : 1) && !isPentagon(cv.v[i])) continue; if (res == 2 && i % 3 && !isPentagon(cv.v[i])) continue; cell_points(cv.v[i], quick); }
         cv_free(&cv);
     }
-    icosa_points(quick); icosa_band(quick); pole_points(quick); random_points(quick ? 8000 : 300000); domain_points(quick ? 1500 : 30000);
+    icosa_points(quick); icosa_band(quick); pole_points(quick); random_points(quick ? 8000 : 100000); domain_points(quick ? 1500 : 10000);
     fprintf(stderr, "events=%ld worst_dev=%.3Lg rad worst dev/tol=%.4f\n", n_events, worst_dev, worst_ratio_ppm / 1e6);
     vt_close(); return 0;
 }
